@@ -53,6 +53,7 @@ def setup(rep, tier):
     rep.minimum('R03.8', 8)
     rep.minimum('R03.9', 1)
     rep.minimum('R03.10', 1)
+    rep.minimum('R03.11', 30)
     rep.minimum('R03.4', 2)
     rep.trusted.append('doc/draft-ietf-codec-opus.xml (RFC 6716 source text) as the table oracle')
 
@@ -603,7 +604,82 @@ def r03_10(rep, prog):
     return n
 
 
+# ------------------------------------------------------------------ R03.11
+def _is_edge_load(e):
+    e = sx.strip(e)
+    if sx.kind(e) != 'idx':
+        return False
+    b = sx.strip(e[1])
+    return (sx.kind(b) == 'field' and b[3] == 'eBands') or (sx.kind(b) in ('param', 'local') and (b[2] if sx.kind(b) == 'param' else b[1]) == 'eBands')
+
+
+def r03_11(rep, prog):
+    """the bit allocation is translation invariant: in celt/rate.c the band-edge table enters only through DIFFERENCES of
+    two of its entries (band widths and spans).  An absolute edge makes the allocation depend on where the coded range
+    starts (band 17 in hybrid mode, 0 in MDCT-only mode): the hybrid bit allocation then differs from the reference
+    decoder's, a skip flag is read or not read, and the rest of the frame is parsed out of step.  A load may also be
+    kept in a local, provided every use of that local is again such a difference."""
+    n = 0
+    for f in prog.functions_all:
+        if f.file != 'celt/rate.c':
+            continue
+        loads = []
+        parents = {}
+        for top in f.all_nodes():
+            for c in sx.children(top):
+                parents[id(c)] = top
+        # locals that hold an edge
+        edge_locals = set()
+        for x in f.all_nodes():
+            if x[0] == 'assign' and sx.kind(sx.strip(x[1])) == 'local' and _is_edge_load(x[2]):
+                edge_locals.add(sx.strip(x[1])[2])
+            if sx.kind(x) == 'decls':
+                for d in x[1]:
+                    if d[0] == 'decl' and d[3] is not None and _is_edge_load(d[3]):
+                        edge_locals.add(d[2])
+
+        def is_edge(e):
+            e = sx.strip(e)
+            return _is_edge_load(e) or (sx.kind(e) == 'local' and e[2] in edge_locals)
+
+        def in_difference(x):
+            p = parents.get(id(x))
+            while p is not None and sx.kind(p) in ('paren', 'cast'):
+                x, p = p, parents.get(id(p))
+            return p is not None and sx.kind(p) == 'bin' and p[1] == '-' and is_edge(p[2]) and is_edge(p[3])
+        for x in f.all_nodes():
+            if _is_edge_load(x) and x is sx.strip(x):
+                p = parents.get(id(x))
+                while p is not None and sx.kind(p) in ('paren', 'cast'):
+                    p = parents.get(id(p))
+                if p is not None and ((p[0] == 'assign' and sx.kind(sx.strip(p[1])) == 'local' and sx.strip(p[1])[2] in edge_locals) or p[0] == 'decl' or sx.kind(p) == 'decls'):
+                    continue        # stored into an edge local: the uses of the local are checked instead
+                loads.append(x)
+            elif sx.kind(x) == 'local' and x[2] in edge_locals:
+                p = parents.get(id(x))
+                if p is not None and p[0] == 'assign' and sx.strip(p[1]) is x:
+                    continue        # the defining store
+                loads.append(x)
+        flagged = set()
+        for x in loads:
+            n += 1
+            rep.functions.add(f.name)
+            inst = '%s:%s uses the band edge `%s` only in a difference of two edges (line %s)' % (prog.config, f.name, sx.show(x)[:28], sx.line(x))
+            where = '%s:%s' % (f.file, sx.line(x))
+            if not in_difference(x):
+                if inst in flagged:
+                    continue          # the same source expression repeated by a macro expansion
+                flagged.add(inst)
+            if in_difference(x):
+                rep.holds('R03.11', inst, where, 'operand of a difference of two band edges')
+            else:
+                rep.violated('R03.11', inst, where, 'an absolute band edge enters the bit allocation: the result depends on the position of the first coded band (17 in hybrid mode), not only on band widths',
+                             key='%s:absolute-edge:%s' % (f.name, sx.show(x)[:24].replace(' ', '')))
+    return n
+
+
 def check(rep, prog, tier):
+    r03_11(rep, prog)
     r03_10(rep, prog)
     tables, digest = rfc.load()
     rep.extra['rfc_tables_parsed'] = len(tables)
